@@ -95,8 +95,8 @@ def case_bins(run, i):
         if mn is not None:
             mn = int(min(mn, 0.75 * avg - 2))
     run.begin_case("bins", i, cls="bins:" + ("access" if access else "noaccess"))
-    t_arr = make_ga([b + ("g%d" % k,) for k, b in enumerate(baits)], ("gene",))
-    a_arr = make_ga(access) if access else None
+    t_arr = make_ga([b + ("g%d" % k,) for k, b in enumerate(baits)], ("gene",), odd=(i % 3 == 1))
+    a_arr = make_ga(access, odd=(i % 4 == 1)) if access else None
     _safe(A.do_antitarget, t_arr, a_arr, avg, mn)
     # target: add zero-width baits
     baits2 = list(baits)
@@ -120,7 +120,7 @@ def case_bins(run, i):
     order = {c: k for k, c in enumerate(tchroms)}
     baits2.sort(key=lambda r: (order[r[0]], r[1], r[2]))
     labels = ["ref|GENE%d,mRNA|AF%d,ens|ENST%d" % (k // 3, k // 3, k) for k in range(len(baits2))]
-    b_arr = make_ga([b + (labels[k],) for k, b in enumerate(baits2)], ("gene",))
+    b_arr = make_ga([b + (labels[k],) for k, b in enumerate(baits2)], ("gene",), odd=(i % 3 == 2))
     tspan = sum(b[2] - b[1] for b in baits2)
     if tspan / tavg > 3000:
         tavg = tspan / 3000 + 0.5
